@@ -25,11 +25,50 @@ def run(ctx):
             spec_bad.append((i, msg))
         elif msg and ctx.prop == "C17" and not msg.startswith("C18"):
             spec_bad.append((i, msg))
+    # "the same input always yields the same layout": several graphs laid out on ONE DependencyChartLayout instance
+    # must each equal the layout a fresh instance computes (graphs sharing node ids, in both orders)
+    hist_bad = []
+    if ctx.prop == "C17":
+        import subprocess
+        sample = [c for c in cases if 2 <= len(c["nodes"]) <= 12][:200]
+        code = r'''
+import sys, json
+sys.path.insert(0, %r)
+from visualization.dependency_chart_layout import DependencyChartLayout
+cases = json.load(sys.stdin)
+def lay(inst, c):
+    nodes = [str(n) for n in c["nodes"]]
+    ed = {}
+    et = []
+    for a, b in c["edges"]:
+        ed.setdefault(str(a), []).append(str(b)); et.append((str(a), str(b)))
+    return {k: list(v) for k, v in inst.from_graph_data(nodes, ed, et).items()}
+bad = []
+for i in range(0, len(cases) - 1, 2):
+    for x, y in ((cases[i], cases[i + 1]), (cases[i + 1], cases[i])):
+        inst = DependencyChartLayout()
+        try:
+            lay(inst, x)
+            got = lay(inst, y)
+            want = lay(DependencyChartLayout(), y)
+            if got != want:
+                bad.append({"first": x, "second": y, "on_used_instance": got, "on_fresh_instance": want})
+        except BaseException as e:
+            bad.append({"first": x, "second": y, "raised": repr(e)})
+print(json.dumps(bad[:5]))
+''' % ctx.repo_copy
+        r = subprocess.run([common.PY, "-W", "ignore", "-c", code], input=json.dumps(sample), capture_output=True, text=True, env=ctx.impl_env())
+        if r.returncode == 0:
+            hist_bad = json.loads(r.stdout)
+        else:
+            ctx.notes.append("history runner failed: " + r.stderr[-300:])
+        for h in hist_bad[:2]:
+            ctx.violation({"what": "a layout depends on what the same DependencyChartLayout instance laid out before", "history": h})
     cov = ctx.coverage
     cov.update({"evaluations": len(cases), "distinct_nontrivial": len(set(json.dumps(c, sort_keys=True) for c in cases if len(c["edges"]) >= 2)),
                 "rule": "DAGs: exhaustive up to %d nodes (all edge subsets of a topological order, relabelled, listing orders shuffled), then random/layered/comb DAGs up to 40 nodes with parallel edges; non-trivial = at least two edges; distinct by (nodes, edges) listing" % (4 if ctx.tier == "quick" else 5),
                 "samples": [{"case": cases[i], "implementation": results[i]} for i in (0, len(cases) // 2, len(cases) - 1)],
-                "disagreements_checked": len(failing), "stats": L.case_stats(cases, results) if hasattr(L, "case_stats") else {},
+                "disagreements_checked": len(failing) + len(hist_bad), "stats": L.case_stats(cases, results) if hasattr(L, "case_stats") else {},
                 "trusted_base": ["corr/layout.py: graph generator, runner of DependencyChartLayout.from_graph_data, printer of cases as Coq terms",
                                  "model fixes node_height=2, node_spacing=1 (the defaults DependencyGraph uses); ascending iteration of a set of small ints; y in halves"]})
     reported = set()
